@@ -964,7 +964,8 @@ def rule_nadd_once(ctx, kernels):
                     q = [c for c in on_path(w.events, e) if c.kind == "call" and c.name in qk]
                     if k.name.endswith("linear"):
                         # amount == new_count - min_count: compare with the table store value on later paths
-                        tstores = [s for s in w.events if s.kind == "store" and s.arr.name in tabs and isinstance(s.value, Num)]
+                        tstores = [s for s in w.events if s.kind == "store" and s.arr.name in tabs and isinstance(s.value, Num)
+                                   and len(s.path) >= len(e.path) and s.path[:len(e.path)] == e.path]     # stores of this path's continuation
                         okk = bool(q) and bool(tstores) and all(
                             s.value.lin - q[-1].result.lin == amt for s in tstores)
                         why = "amount equals new_count - min_count (the capped multiplicity)"
